@@ -22,7 +22,7 @@ use crate::kani;
 /// graaf's generic `Bfs` over every digraph on N vertices and every source
 /// set (N(N-1) + N symbolic bits).
 fn bfs_array<const N: usize>() {
-    cx::set_vcap(N);
+    cx::set_vcap(2 * N);
 
     let g = G::<N>::any();
     let src: [bool; N] = nd::bools();
@@ -58,7 +58,7 @@ fn bfs_array<const N: usize>() {
 }
 
 fn bfs_dist_array<const N: usize>() {
-    cx::set_vcap(N);
+    cx::set_vcap(2 * N);
 
     let g = G::<N>::any();
     let src: [bool; N] = nd::bools();
@@ -94,7 +94,7 @@ fn bfs_dist_array<const N: usize>() {
 }
 
 fn bfs_distances_array<const N: usize>() {
-    cx::set_vcap(N);
+    cx::set_vcap(2 * N);
 
     let g = G::<N>::any();
     let src: [bool; N] = nd::bools();
